@@ -355,6 +355,16 @@ impl<T: Qcow2IoOps> Qcow2Dev<T> {
         l2_table: &mut LockWriteGuard<L2Table>,
     ) -> Qcow2Result<Mapping> {
         let info = &self.info;
+
+        // the preallocated cluster of zero mapping is reused: its content is
+        // undefined, so it is zeroed before the new mapping becomes visible
+        // to readers (the slice write lock is held)
+        if let Some(off) = Self::zero_prealloc_cluster(&l2_table.get_mapping(info, split)) {
+            self.call_fallocate(off, info.cluster_size(), 0).await?;
+            let _ = l2_table.map_cluster(split.l2_slice_index(info), off);
+            return Ok(l2_table.get_mapping(info, split));
+        }
+
         let allocated = self.allocate_cluster().await?;
         match allocated {
             Some(res) => {
@@ -364,16 +374,7 @@ impl<T: Qcow2IoOps> Qcow2Dev<T> {
                 self.mark_new_cluster(l2_offset >> info.cluster_bits())
                     .await;
 
-                // the replaced cluster of compressed mapping is released after
-                // copy on write is done, but the preallocated cluster of zero
-                // mapping isn't referenced any more from now on
-                let compressed = l2_table.get_entry(info, split).is_compressed();
-                if let Some((off, cnt)) = l2_table.map_cluster(split.l2_slice_index(info), l2_offset)
-                {
-                    if !compressed {
-                        self.free_clusters(off, cnt).await?;
-                    }
-                }
+                let _ = l2_table.map_cluster(split.l2_slice_index(info), l2_offset);
                 Ok(l2_table.get_mapping(info, split))
             }
             None => Err("DataFile mapping: None offset None".into()),
@@ -394,6 +395,16 @@ impl<T: Qcow2IoOps> Qcow2Dev<T> {
             self.mark_need_flush(true);
         }
         Ok(l2_table.get_entry(&self.info, &split))
+    }
+
+    /// host cluster preallocated for one zero cluster, which can be written
+    /// to after the zero flag is cleared
+    fn zero_prealloc_cluster(mapping: &Mapping) -> Option<u64> {
+        if mapping.source == MappingSource::Zero && mapping.copied {
+            mapping.cluster_offset
+        } else {
+            None
+        }
     }
 
     /// don't pre-populate mapping for backing & compressed cow, which
@@ -446,6 +457,31 @@ impl<T: Qcow2IoOps> Qcow2Dev<T> {
             )
         };
 
+        // the preallocated cluster of zero mapping is reused: its content is
+        // undefined, so it is zeroed before the new mapping becomes visible
+        // to readers (the slice write lock is held)
+        let mut reused = false;
+        for this_off in (start..end).step_by(cls_size as usize) {
+            let s = SplitGuestOffset(this_off);
+            let mapping = l2_table.get_mapping(&self.info, &s);
+
+            if let Some(host_off) = Self::zero_prealloc_cluster(&mapping) {
+                if let Err(e) = self.call_fallocate(host_off, info.cluster_size(), 0).await {
+                    if reused {
+                        l2_handle.set_dirty(true);
+                        self.mark_need_flush(true);
+                    }
+                    return Err(e);
+                }
+                let _ = l2_table.map_cluster(s.l2_slice_index(info), host_off);
+                reused = true;
+            }
+        }
+        if reused {
+            l2_handle.set_dirty(true);
+            self.mark_need_flush(true);
+        }
+
         // figure out how many clusters to allocate for write
         let mut nr_clusters = 0;
         for this_off in (start..end).step_by(cls_size as usize) {
@@ -489,13 +525,7 @@ impl<T: Qcow2IoOps> Qcow2Dev<T> {
 
                     // this is one new cluster
                     self.mark_new_cluster(l2_off >> info.cluster_bits()).await;
-
-                    // release the preallocated cluster of zero mapping
-                    if let Some((off, cnt)) =
-                        l2_table.map_cluster(split.l2_slice_index(info), l2_off)
-                    {
-                        self.free_clusters(off, cnt).await?;
-                    }
+                    let _ = l2_table.map_cluster(split.l2_slice_index(info), l2_off);
 
                     //load new entry
                     let entry = l2_table.get_entry(info, &split);
